@@ -33,6 +33,7 @@ def k_lnk_short(p, i, prev): os.symlink('t%d' % i, p)
 def k_lnk_59(p, i, prev): os.symlink('s' * 59, p)
 def k_lnk_60(p, i, prev): os.symlink('m' * 60, p)
 def k_lnk_long(p, i, prev): os.symlink('L' * 300, p)
+def k_lnk_100(p, i, prev): os.symlink('c' * (90 + i % 30), p)        # 90..119 bytes: too long for i_block, short enough for an inline-data symlink
 def k_hard(p, i, prev):
     if prev: os.link(prev, p)
     else: open(p, 'wb').write(b'nolink')
@@ -43,7 +44,7 @@ def k_sock(p, i, prev): os.mknod(p, 0o755 | stat.S_IFSOCK)
 def k_dir(p, i, prev):
     os.mkdir(p); open(os.path.join(p, 'in'), 'wb').write(pat(700, i)); os.mkdir(os.path.join(p, 'sub')); os.symlink('../in', os.path.join(p, 'sub', 'up'))
 KINDS = [('empty', k_empty), ('one', k_1), ('bsm1', k_bsm1), ('bs', k_bs), ('b12', k_12), ('p3', k_4k3), ('hs', k_hole_start), ('hm', k_hole_mid), ('he', k_hole_end), ('zb', k_zero_block),
-         ('far', k_far), ('ls', k_lnk_short), ('l59', k_lnk_59), ('l60', k_lnk_60), ('ll', k_lnk_long), ('hard', k_hard), ('chr', k_chr), ('blk', k_blk), ('fifo', k_fifo), ('sock', k_sock), ('dir', k_dir)]
+         ('far', k_far), ('ls', k_lnk_short), ('l59', k_lnk_59), ('l60', k_lnk_60), ('ll', k_lnk_long), ('l100', k_lnk_100), ('hard', k_hard), ('chr', k_chr), ('blk', k_blk), ('fifo', k_fifo), ('sock', k_sock), ('dir', k_dir)]
 KD = dict(KINDS)
 VARIANTS = [('m4755', lambda p: os.chmod(p, 0o4755)), ('m1777', lambda p: os.chmod(p, 0o1777)), ('m0000', lambda p: os.chmod(p, 0)), ('u1000', lambda p: os.lchown(p, 1000, 1000)),
             ('u70000', lambda p: os.lchown(p, 70000, 66000)), ('t0', lambda p: os.utime(p, (0, 0), follow_symlinks=False)), ('t1', lambda p: os.utime(p, (1, 1), follow_symlinks=False)),
@@ -57,7 +58,7 @@ def make_tree(root, spec):
     os.makedirs(root)
     prev = None
     for i, (k, v) in enumerate(spec):
-        p = os.path.join(root, 'e%d_%s' % (i, k))
+        p = os.path.join(root, 'e%d_%s' % (i, k) + PAD)
         KD[k](p, i, prev)
         if v:
             try: VD[v](p)
@@ -67,7 +68,7 @@ def make_tree(root, spec):
     os.utime(root, (1600000000, 1600000000))
     # every entry (also nested ones and hard links) gets a fixed mtime unless a time variant set one; then everything is read once so that the
     # host's relatime handling does not change atime between the two builds of the reproducibility check
-    tv = dict((os.path.join(root, 'e%d_%s' % (i, k)), v) for i, (k, v) in enumerate(spec))
+    tv = dict((os.path.join(root, 'e%d_%s' % (i, k) + PAD), v) for i, (k, v) in enumerate(spec))
     for dp, dns, fns in os.walk(root):
         for n in dns + fns:
             q = os.path.join(dp, n)
@@ -208,8 +209,11 @@ def dbg_script(root, ref):
     return cmds
 
 ENV = None
+PAD = ''
 def job(j):
+    global PAD
     cid, spec, feat, do_dbg, do_extract = j
+    PAD = '_' + 'n' * 36 if cid.startswith('fan') else ''        # fan-out trees use 44-byte names: about 20 entries per 1k directory block
     w = fsweep.scratch_worker()
     root = os.path.join(w, 'src'); img = os.path.join(w, 'c18.img'); out = os.path.join(w, 'out')
     for x in (root, out):
@@ -222,7 +226,7 @@ def job(j):
     bad = []; n = 0
     big = any(k == 'far' for k, v in spec)
     size = '12M'
-    argv = [MKE2FS, '-q', '-F', '-U', UUID, '-E', 'hash_seed=' + SEEDU, '-N', '64', '-d', root] + FEATS[feat] + [img, size]
+    argv = [MKE2FS, '-q', '-F', '-U', UUID, '-E', 'hash_seed=' + SEEDU, '-N', '320', '-d', root] + FEATS[feat] + [img, size]
     if os.path.exists(img): os.unlink(img)
     rc, o = run(argv, timeout=120, env=ENV); n += 1
     if rc != 0:
@@ -268,7 +272,7 @@ def job(j):
                     bad.append('dump -p: %r' % e)
     if do_dbg and not big:
         if os.path.exists(img): os.unlink(img)
-        rc, o = run([MKE2FS, '-q', '-F', '-U', UUID, '-E', 'hash_seed=' + SEEDU, '-N', '64'] + FEATS[feat] + [img, size], timeout=120); n += 1
+        rc, o = run([MKE2FS, '-q', '-F', '-U', UUID, '-E', 'hash_seed=' + SEEDU, '-N', '320'] + FEATS[feat] + [img, size], timeout=120); n += 1
         sp = os.path.join(w, 'build.dbg'); open(sp, 'w').write('\n'.join(dbg_script(root, ref)) + '\n')
         rc, o = run([DEBUGFS, '-w', '-f', sp, img], timeout=120); n += 1
         d2 = open(img, 'rb').read()
@@ -302,6 +306,13 @@ def main(tier, only=None):
     trees += [[(k, v)] for k in kinds for v, f in VARIANTS if not (k.startswith('l') and v.startswith('m'))]
     feats = ['ext4', 'inline'] if quick else list(FEATS)
     jobs = []
+    # fan-out: one directory level holding N entries of one kind, N = 1 .. 48 with 44-byte names: the root directory grows from its inline area (inline_data) / first block
+    # through two more directory blocks, and each kind is the entry that overflows it for some N
+    for feat in feats:
+        for k in ['one', 'l100', 'ls', 'll', 'dir', 'fifo', 'hard', 'l60']:
+            for N in range(1, 49):
+                if quick and k not in ('one', 'l100', 'dir') and N % 3: continue
+                jobs.append(('fan/%s/%sx%d' % (feat, k, N), [(k, None)] * N, feat, N % 4 == 0 and k != 'hard', N % 8 == 0))       # debugfs ln does not expand a full directory: no script builder for many hard links
     for fi, feat in enumerate(feats):
         for ti, t in enumerate(trees):
             if quick and len(t) == 2 and fi == 1 and ti % 3: continue
@@ -323,7 +334,7 @@ def main(tier, only=None):
     ck.add(evaluations=runs, distinct_nontrivial=ok, states=len(jobs), transitions=runs, traces_validated_against_impl=len(jobs),
            rule='source trees: every tree with <= 2 entries (thorough: + all 3-entry trees over 8 kinds) drawn from %d entry kinds (empty, 1 byte, bs-1, bs, 12*bs+1, 3 pages+5, hole at start/middle/end, allocated zero blocks, data beyond 4 GiB, '
                 'symlinks of 2/59/60/300 bytes, hard link, chr, blk (large minor), fifo, socket, directory with nested entries), plus each kind x one metadata variant (modes 04755/01777/0000, owners 1000 and 70000, mtime 0/1/2^31-1, user xattr); '
-                'x feature sets %s; builders mke2fs -d and a debugfs script; oracle: independent reading of the image equals the lstat walk of the source (names, types, rdev, size, content block by block, holes = holes, targets, link groups and counts, '
+                'plus fan-out trees (N = 1..48 entries of one kind with 44-byte names in one directory, 8 kinds: the directory outgrows its inline area / first block at some N for every kind); x feature sets %s; builders mke2fs -d and a debugfs script; oracle: independent reading of the image equals the lstat walk of the source (names, types, rdev, size, content block by block, holes = holes, targets, link groups and counts, '
                 '12 mode bits, owners, mtime seconds, user xattrs), e2fsck -fn = 0, independent checker clean, rebuild byte-identical; extraction by rdump/dump -p compared with the source. distinct_nontrivial = trees that passed' % (len(KINDS), feats),
            samples=[jobs[0][0], jobs[len(jobs) // 2][0], jobs[-1][0]])
     ck.cov['skipped'] = skip; ck.cov['skip_reasons'] = skips
